@@ -29,6 +29,12 @@ def run(ctx):
     cand = set()
     for e in fsm.out_edges(W):
         cand |= {a for a, p in q.atoms(e) if p and a not in (RCV, LEN, '0 == ' + LEN, DIR)}
+    if not cand:
+        # the setup-wait state is left on a received SETUP packet alone: the decoder reports SETUPs for every endpoint, so
+        # a SETUP addressed to another endpoint starts a control transfer here
+        ctx.ob('C07.endpoint-gate', 'USBControlEndpoint.setup-wait.dispatch', False, fsm.state_loc[W],
+               'the setup-wait state must be left only for a SETUP addressed to this endpoint; its edges carry no endpoint '
+               'condition: %s' % [q.fmt(e)[:160] for e in fsm.out_edges(W)])
     ctx.need(len(cand) == 1, 'the endpoint gate of the setup-wait state (candidates %s)' % sorted(cand))
     EP = cand.pop()
     want_ep = '0 == ' + T + 'endpoint'
